@@ -851,7 +851,9 @@ func main() {
 	scratch := ev.Scratch("c13")
 	defer os.RemoveAll(scratch)
 	if *replayFile != "" {
-		os.Exit(doReplay(*replayFile))
+		rc := doReplay(*replayFile)
+		_ = os.RemoveAll(scratch)
+		os.Exit(rc)
 	}
 	run := ev.NewRun("C13", "exploration")
 	budget := 50 * time.Second
@@ -1003,6 +1005,7 @@ func main() {
 		"ProcessWrite is called with server.WrapperUpdateOperationCallback, the callback used by leader, follower and replay",
 		"a replica that hit an infrastructure error is not compared further: the follower apply loop returns at that entry",
 	}
+	_ = os.RemoveAll(scratch) // os.Exit skips deferred calls
 	os.Exit(run.Finish("every request of the grammar applied in the empty state and after every single other request (all ordered pairs; thorough: all ordered triples of the sequence sub-grammar) on three replicas (leader route, follower route with fresh decode, close+reopen after every entry); a case is distinct when its (request families, per-operation statuses / error class) signature differs"))
 }
 
